@@ -1208,8 +1208,8 @@ func childC10(res *hx.Result, rng *hx.Rng, tier string, outdir string) {
 		}
 		out.Counts = append(out.Counts, c10Count{o.Desc, nh >= 2})
 		out.Dist["dispatch-scripts"]++
-		out.DCases = append(out.DCases, [2]string{fmt.Sprintf("{| c_ops := %s; c_end := %d%%N; c_hs := %s; c_sent := %s; c_sclose := %d%%N |}",
-			hx.List(o.Ops), o.End, hx.List(o.Hs), hx.List(o.Sent), o.SClose), o.Desc})
+		out.DCases = append(out.DCases, [2]string{fmt.Sprintf("{| c_ops := %s; c_end := %d%%N; c_hs := %s; c_sent := %s; c_wire := %s; c_sclose := %d%%N |}",
+			hx.List(o.Ops), o.End, hx.List(o.Hs), hx.List(o.Sent), wireTerm(o.Wire), o.SClose), o.Desc})
 	}
 	save("concurrent registration/removal under traffic")
 	rounds := 25 * mult
